@@ -8,30 +8,36 @@ from .gene_common import *  # noqa
 from .lib import LIB  # noqa
 from .c09_queries import AC, GENE
 from .c13_variants import _charat, _refat
+from .c03_sequence import _comp_code
 
 
 class SubsetParent(Case):
     props = ("C09",)
     func = AC + "._subset_parent"
-    call = ("(lambda p: (len(p.sequence), p.sequence, p.parent.location.start, p.parent.location.end, p.sequence.parent.location.parent.id))"
-            "(col._subset_parent(a, b))")
+    call = ("(lambda p: (len(p.sequence), p.sequence, p.parent.location.start, p.parent.location.end, "
+            "p.sequence.parent.location.parent.id, p.parent.location.strand))(col._subset_parent(a, b))")
     module = "gene.collections"
     ensures = {
         "length": lambda i, r: r[0] == i.b - i.a,
+        # a reverse-strand source chunk holds the reverse complement of the chromosome stretch: chromosome base p is
+        # the complement of chunk character ce-1-p; the re-cut chunk is always plus-oriented chromosome text
         "k-th-character-is-the-source-base": lambda i, r: Implies(
-            And(0 <= i.k, i.k < i.b - i.a), _charat(r[1], i.k) == _refat(i.ref, i.a - i.cs + i.k)),
+            And(0 <= i.k, i.k < i.b - i.a),
+            _charat(r[1], i.k) == (_comp_code(_refat(i.ref, i.ce - 1 - (i.a + i.k))) if i.minus
+                                   else _refat(i.ref, i.a - i.cs + i.k))),
+        "re-cut-chunk-is-on-the-plus-strand": lambda i, r: enum_name_is(r[5], "PLUS"),
         "chromosome-coordinates": lambda i, r: And(r[2] == i.a, r[3] == i.b),
         "same-chromosome-id": lambda i, r: r[4] == "chr1",
     }
 
     def __init__(self, at_end):
         self.at_end = at_end
-        self.name = ("AnnotationCollection._subset_parent[sequence-chunk parent, explicit collection bounds, "
-                     + ("range ends at the collection end]" if at_end else "range ends before the collection end]"))
+        self.name = ("AnnotationCollection._subset_parent[sequence-chunk parent on either strand, explicit collection "
+                     "bounds, " + ("range ends at the collection end]" if at_end else "range ends before the collection end]"))
 
     def inputs(self, S):
-        from .c04_liftover import chunk_parent
-        cp, cs, ce = chunk_parent(S)
+        from .c04_liftover import chunk_parent_stranded
+        cp, cs, ce, minus = chunk_parent_stranded(S)
         strand = strand_of(S, "strand")
         s, e = S.int("s0"), S.int("e0")
         lo, hi = S.int("col_start"), S.int("col_end")
@@ -41,7 +47,7 @@ class SubsetParent(Case):
         tx = S.new(TRANSCRIPT, [s], [e], strand, transcript_id="tx0", parent_or_seq_chunk_parent=cp)
         gene = S.new(GENE, [tx], gene_id="g0", parent_or_seq_chunk_parent=cp)
         col = S.new(AC, genes=[gene], start=lo, end=hi, parent_or_seq_chunk_parent=cp)
-        return NS(col=col, a=a, b=b, k=k, cs=cs, ref=S.symstr("chunk_seq"))
+        return NS(col=col, a=a, b=b, k=k, cs=cs, ce=ce, minus=minus, ref=S.symstr("chunk_seq"))
 
     def samples(self, rng):
         cs = rng.randint(0, 6)
@@ -53,13 +59,13 @@ class SubsetParent(Case):
         a = rng.randint(lo, hi - 1)
         b = hi if self.at_end else rng.randint(a + 1, hi)
         return dict(chunk_start=cs, chunk_end=cs + L, chunk_seq="".join(rng.choice("ACGT") for _ in range(L)),
-                    strand=rng.choice(["PLUS", "MINUS"]), s0=s, e0=e, col_start=lo, col_end=hi, a=a, b=b,
+                    strand=rng.choice(["PLUS", "MINUS"]), chunk_strand=rng.choice(["PLUS", "MINUS"]), s0=s, e0=e, col_start=lo, col_end=hi, a=a, b=b,
                     k=rng.randint(0, 8))
 
     def observe(self, r):
         from pyvc.check import default_observe as o
         text = r[1].sequence if hasattr(r[1], "attrs") else str(r[1])
-        return [o(r[0]), text if isinstance(text, str) else None, o(r[2]), o(r[3]), r[4]]
+        return [o(r[0]), text if isinstance(text, str) else None, o(r[2]), o(r[3]), r[4], o(r[5])]
 
 
 CASES = [SubsetParent(False), SubsetParent(True)]
